@@ -376,6 +376,39 @@ fn run_one(runner: &SierraCasmRunner, fname: &str, args: Vec<Arg>, shape: &Shape
     }
 }
 
+/// Evaluates a chunk; when the chunk cannot be compiled (diagnostics on a generated function, or
+/// the compiler crashes) the chunk is bisected down to the offending case, which is returned as a
+/// failed case: compile-time evaluation that crashes or rejects where run time returns a value is
+/// a C07 failure with a concrete input.
+pub fn eval_chunk_bisect(dir: &str, idx: usize, cases: Vec<Case>) -> Vec<Done> {
+    match eval_chunk(dir, idx, cases.clone()) {
+        Ok(v) => v,
+        Err(e) => {
+            if cases.len() <= 1 {
+                cases
+                    .into_iter()
+                    .map(|case| Done {
+                        c1: None,
+                        c2: None,
+                        runs: vec![(
+                            "lit/fold",
+                            RRes::Bad(format!("the program of the case does not compile / the compiler crashed: {}", e.chars().take(600).collect::<String>())),
+                        )],
+                        g_size: [0, 0],
+                        case,
+                    })
+                    .collect()
+            } else {
+                let mut a = cases;
+                let b = a.split_off(a.len() / 2);
+                let mut out = eval_chunk_bisect(dir, 100_000 + idx * 2, a);
+                out.extend(eval_chunk_bisect(dir, 100_001 + idx * 2, b));
+                out
+            }
+        }
+    }
+}
+
 /// Evaluates one chunk of cases: one consts crate, one twins crate (compiled twice).
 pub fn eval_chunk(dir: &str, idx: usize, cases: Vec<Case>) -> Result<Vec<Done>, String> {
     // ---------- program text ----------
@@ -494,7 +527,9 @@ pub fn eval_chunk(dir: &str, idx: usize, cases: Vec<Case>) -> Result<Vec<Done>, 
     for (skip, names) in [(false, ("args/fold", "lit/fold")), (true, ("args/nofold", "lit/nofold"))] {
         let mut db = build_db(skip);
         let inputs = setup_project(&mut db, Path::new(&twins_path)).map_err(|e| format!("{e:?}"))?;
-        check_diags(&db, &inputs).map_err(|e| format!("twins_{idx} does not compile: {e}"))?;
+        vcommon::catch(std::panic::AssertUnwindSafe(|| check_diags(&db, &inputs)))
+            .map_err(|e| format!("twins_{idx}: compiler panic {e} at {}", vcommon::last_panic_location()))?
+            .map_err(|e| format!("twins_{idx} does not compile: {e}"))?;
         let db = &db;
         let crate_ids = CrateInput::into_crate_ids(db, inputs);
         let prog = vcommon::catch(std::panic::AssertUnwindSafe(|| {
